@@ -1,5 +1,5 @@
 //! C17 executor: statistical transforms and binomial coefficients of `compute::functions`.
-//! Requests: logisticv <vec> | logit p | rt1 x | rt2 p | boxcox x l | boxcoxs x l a | softmax2 c <vec> |
+//! Requests: logisticv <vec> | logit p | rt1 x | rt2 p | boxcox x l | boxcoxs x l a | softmax2 c <vec> | logsweep a b |
 //! binom n k | binomalt n k
 use compute::functions::{binom_coeff, binom_coeff_alt, boxcox, boxcox_shifted, logistic, logit, softmax};
 use cvexec::*;
@@ -52,6 +52,59 @@ fn step(_: &mut (), t: &mut Toks) -> R<String> {
             let (n, k) = (t.u64()?, t.u64()?);
             t.end()?;
             Ok(ok(format!("{}", binom_coeff(n, k))))
+        }
+        "logsweep" => {
+            // every non-negative f32 bit pattern in [a, b], together with its negation: range, monotonicity, reflection
+            // identity and a hash of all results (compared with the model's hash)
+            let (a, b) = (t.u64()?, t.u64()?);
+            t.end()?;
+            if a > b || b > 0x7f7f_ffff {
+                return Err(BadOp);
+            }
+            let mut h: u64 = 0xcbf2_9ce4_8422_2325;
+            let (mut bad_range, mut bad_mono, mut bad_symm, mut zeros, mut ones) = (0u64, 0u64, 0u64, 0u64, 0u64);
+            let mut first_bad: u64 = u64::MAX;
+            let (mut pp, mut pq) = (f64::NEG_INFINITY, f64::INFINITY);
+            let (mut p0, mut q0) = (0f64, 0f64);
+            for bits in a..=b {
+                let x = f32::from_bits(bits as u32) as f64;
+                let p = logistic(x);
+                let q = logistic(-x);
+                if bits == a {
+                    p0 = p;
+                    q0 = q;
+                }
+                let mut bad = false;
+                if !(p >= 0. && p <= 1. && q >= 0. && q <= 1.) {
+                    bad_range += 1;
+                    bad = true;
+                }
+                if !(p >= pp && q <= pq) {
+                    bad_mono += 1;
+                    bad = true;
+                }
+                if !(((p + q) - 1.).abs() <= 200. * f64::EPSILON) {
+                    bad_symm += 1;
+                    bad = true;
+                }
+                if bad && first_bad == u64::MAX {
+                    first_bad = bits;
+                }
+                if q == 0. {
+                    zeros += 1;
+                }
+                if p == 1. {
+                    ones += 1;
+                }
+                pp = p;
+                pq = q;
+                h = (h ^ p.to_bits()).wrapping_mul(0x0000_0100_0000_01b3);
+                h = (h ^ q.to_bits()).wrapping_mul(0x0000_0100_0000_01b3);
+            }
+            Ok(ok(format!(
+                "{} {} {} {} {} {} {} {} {} {} {} {}",
+                b - a + 1, bad_range, bad_mono, bad_symm, first_bad, zeros, ones, h, show_f(p0), show_f(q0), show_f(pp), show_f(pq)
+            )))
         }
         "binomalt" => {
             let (n, k) = (t.u64()?, t.u64()?);
